@@ -204,6 +204,17 @@ func getName(nodeSet NodeSet, ok bool, nameType nameType) (Result, error) {
 		return String(fmt.Sprintf("{%s}%s", n.Space(), n.Local())), nil
 	}
 
+	// Processing instructions and namespace nodes have an expanded-name with
+	// a null namespace URI: the local part is the target, or the prefix.
+	if nameType != namespaceOnly {
+		switch n := firstNode.Node().(type) {
+		case node.ProcInst:
+			return String(n.Target()), nil
+		case node.Namespace:
+			return String(n.Prefix()), nil
+		}
+	}
+
 	return String(""), nil
 }
 
